@@ -49,11 +49,11 @@ pub fn run(s: &Session) {
     s.assume("HashMap iteration order inside the behaviour (peer visiting order) is not controlled; invariants must hold for every order");
     let mode = Mode { check_wire: false, check_sets: true };
     let cfg_a = Cfg { peers: 3, max_peers: 2, max_warm: 1, max_hot: 1, max_error_count: 0, version: 13 };
-    let (st, tr) = bfs(s, "exhaustive-3peers", &cfg_a, &[], &alphabet(3), s.pick(6, 8), &mode, &interesting);
+    let (st, tr) = bfs(s, "exhaustive-3peers", &cfg_a, &[], &alphabet(3), s.pick(7, 9), &mode, &interesting);
     s.note("exhaustive_3peers_states", serde_json::json!(st));
     s.note("exhaustive_3peers_transitions", serde_json::json!(tr));
     let cfg_b = Cfg { peers: 2, max_peers: 3, max_warm: 2, max_hot: 1, max_error_count: 1, version: 13 };
-    let (st, tr) = bfs(s, "exhaustive-2peers", &cfg_b, &[], &alphabet(2), s.pick(8, 10), &mode, &interesting);
+    let (st, tr) = bfs(s, "exhaustive-2peers", &cfg_b, &[], &alphabet(2), s.pick(9, 11), &mode, &interesting);
     s.note("exhaustive_2peers_states", serde_json::json!(st));
     s.note("exhaustive_2peers_transitions", serde_json::json!(tr));
     for (name, cfg) in [
@@ -63,7 +63,7 @@ pub fn run(s: &Session) {
         let c2 = cfg.clone();
         s.forall(
             name,
-            s.pick(3_000, 100_000),
+            s.pick(8_000, 200_000),
             move || {
                 let c = c2.clone();
                 prop::collection::vec(op_strategy(c.peers), 1..200).prop_map(move |ops| SeqCase { cfg: c.clone(), ops, idx: 0 })
